@@ -461,9 +461,11 @@ def _fold_not(t, v):
     return t, v
 
 
-def branch_paths(stmts, limit=512):
-    """every path through the if-statements of a statement list"""
+def branch_paths(stmts, limit=512, fn=None):
+    """every path through the if-statements of a statement list; with fn given, conditions are shown with
+    single-definition locals of fn replaced by their values (`a = self.x; if a:` reads as `if self.x:`)"""
     out = []
+    _res = (lambda t: resolve_deep(fn, t, 2)) if fn is not None else (lambda t: t)
 
     def go(todo, conds, done):
         if len(out) > limit:
@@ -473,8 +475,9 @@ def branch_paths(stmts, limit=512):
             return
         s, rest = todo[0], todo[1:]
         if isinstance(s, ast.If):
-            go(list(s.body) + rest, conds + [(s.test, True)], done)
-            go(list(s.orelse) + rest, conds + [(s.test, False)], done)
+            t_ = _res(s.test)
+            go(list(s.body) + rest, conds + [(t_, True)], done)
+            go(list(s.orelse) + rest, conds + [(t_, False)], done)
             return
         if isinstance(s, (ast.Return, ast.Raise, ast.Continue, ast.Break)):
             out.append(BranchPath(conds, done + [s], s))
